@@ -609,7 +609,9 @@ def rec_pipe(cfg, H, W, seed):
         ds = PairDataset.make([(H, W, cfg["typ"], lab)] * 3)
         idx = seed % 3
         np.random.seed(seed % (2 ** 31))  # transforms take their generator from the numpy global one at construction
-        w = SemsegTransformWrapper(dataset=ds, transforms=build_pipeline(cfg), seed=seed if cfg["wseed"] else None)
+        # seed 0 is a seed like any other (every third seeded case uses it)
+        w = SemsegTransformWrapper(dataset=ds, transforms=build_pipeline(cfg),
+                                   seed=(0 if seed % 3 == 0 else seed) if cfg["wseed"] else None)
         acc = cfg["access"]
         if acc == "xs":
             x, s = ModeWrapper(dataset=w, mode="x semseg")[idx]
@@ -715,7 +717,10 @@ def rec_ps(cfg, H, W, seed):
 
     def go():
         p = PatchifyImage(patch_size=(cfg["ph"], cfg["pw"]))(x, ctx)
-        sh = PatchwiseShuffle().set_rng(_rng(seed))(p.clone(), ctx)
+        t = PatchwiseShuffle().set_rng(_rng(seed))
+        sh = t(p.clone(), ctx)
+        if seed % 2 == 0:
+            t(p.clone(), {})  # the same instance handles the next sample: what it recorded for this one must stay
         perm = [int(v) for v in np.asarray(ctx["permutation"]).reshape(-1)]
         # by hand: patch k of the shuffled tensor came from position perm[k]
         un = torch.empty_like(sh)
